@@ -205,6 +205,11 @@ def tensor_case(run, specs, env, R, t, kind):
         items.append((f"evaluate_deriv_basis rank-{k} tensor ({dt})", k, 2,
                       lambda k=k, dt=dt: deriv_tensor(lambda o: evaluate_deriv_basis(b1, env.points, o, deriv_type=dt), k),
                       lambda k=k, dt=dt: pf.apply_on_axes(deriv_tensor(lambda o: evaluate_deriv_basis(b2, env2.points, o, deriv_type=dt), k), [D], 1)))
+    from gbasis.integrals.moment import moment_integral
+    for k in (2, 3, 4) + (() if run.tier == "quick" else (5,)):
+        items.append((f"moment_integral rank-{k} tensor", k, 2,
+                      lambda k=k: deriv_tensor(lambda o: moment_integral(b1, env.origin, o[None, :])[:, :, 0], k),
+                      lambda k=k: pf.apply_on_axes(deriv_tensor(lambda o: moment_integral(b2, env2.origin, o[None, :])[:, :, 0], k), [D, D], 2)))
     for k in (1, 2, 3):
         items.append((f"evaluate_deriv_density rank-{k} tensor", k, 1,
                       lambda k=k: deriv_tensor(lambda o: Dn.evaluate_deriv_density(o, g, b1, env.points), k),
@@ -340,9 +345,13 @@ def check(run):
         right_matrix_case(run, rng, l)
     # repulsion integrals: angular momenta fixed so that every axis branch of the electron-transfer and horizontal recursions is
     # exercised (p and d shells on both electrons), centres in general position
-    for k, ls in enumerate([(1, 1)] if quick else [(1, 1), (1, 2), (2, 1), (0, 2), (2, 2)]):
+    for k, ls in enumerate([(1, 1), (1, 2)] if quick else [(1, 1), (1, 2), (2, 1), (0, 2), (2, 2)]):
         cs = []
         specs = [rand_shell(rng, ls[i], cs, nprim=rng.randint(1, 2), nseg=1, exp_lo=0.1, exp_hi=10.0, sph=bool((i + k) % 2)) for i in range(2)]
+        # centres in general position (no coincidence, no two equal displacement components): the pool of `rand_shell` forces
+        # coincidences and alignments, under which whole branches of the recursions are multiplied by zero
+        general = [[0.35, -0.6, 0.85], [-0.75, 0.4, -0.2]]
+        specs = [s_.copy(center=general[i]) for i, s_ in enumerate(specs)]
         env = pf.default_env(rng, specs)
         motion_case(run, specs, env, cayley(rng), np.array([0.5, 0.25, -1.0]), "orthogonal+translation", ["eri_chemist"])
         motion_case(run, specs, env, rng.choice(sp), np.zeros(3), "signed-permutation", ["eri_chemist"])
